@@ -193,8 +193,28 @@ func plainBranchName(n string) bool {
 }
 
 // Allowed returns the permitted outcomes of a command, or nil when undefined.
+// indexConflict: the staging area holds both "x" and "x/y" (a directory replaced by a file
+// and staged while the old entries beneath it stay staged). The statements do not say what
+// the commands mean on such a staging area; transitions from it are not judged by the model
+// (the connectivity invariants still are).
+func indexConflict(a *Abs) bool {
+	for _, e := range a.Index {
+		for i := 0; i < len(e.Path); i++ {
+			if e.Path[i] == '/' {
+				if _, ok := a.IndexMap()[e.Path[:i]]; ok {
+					return true
+				}
+			}
+		}
+	}
+	return false
+}
+
 func Allowed(a *Abs, st Step) []Out {
 	if st.Op != "run" || len(st.Args) == 0 {
+		return nil
+	}
+	if indexConflict(a) {
 		return nil
 	}
 	args := st.Args[1:]
@@ -554,11 +574,13 @@ func modelRestore(a *Abs, args []string) []Out {
 			}
 		}
 		o := a.base()
+		var restored []string
 		for _, arg := range paths {
 			c := cleanArg(arg)
 			if id, tracked := I[c]; tracked {
 				if b := a.GoodObj(id); b != nil {
 					o.W[c] = b.Body
+					restored = append(restored, c)
 				}
 				continue
 			}
@@ -566,7 +588,17 @@ func modelRestore(a *Abs, args []string) []Out {
 				if isUnder(p, c) {
 					if b := a.GoodObj(id); b != nil {
 						o.W[p] = b.Body
+						restored = append(restored, p)
 					}
+				}
+			}
+		}
+		// a staging area that holds both "x" and "x/y" (a directory replaced by a file and staged
+		// while the old entries beneath it stay staged) cannot be materialised: not judged
+		for _, p := range restored {
+			for q := range o.W {
+				if q != p && (strings.HasPrefix(q, p+"/") || strings.HasPrefix(p, q+"/")) {
+					return nil
 				}
 			}
 		}
